@@ -38,10 +38,13 @@ pub fn gen_redex(r: &mut Rng) -> (String, &'static str) {
                 3 => format!("not {}(Z)", ["p", "q"][r.upto(2)]),
                 _ => { let use_loc = r.chance(2, 3); filler(r, if use_loc { loc } else { vs }, 1) }
             };
+            // near misses: the rewrite is only valid for a conjunction under exists
+            let conn = ["and", "and", "and", "and", "or", "->", "<->"][r.upto(7)];
+            let q = if r.chance(1, 8) { "forall" } else { "exists" };
             let s = if r.chance(1, 2) {
-                format!("exists Z{outer_more} (exists I$i{inner_more} ({e} and {g}) and {h})")
+                format!("{q} Z{outer_more} (exists I$i{inner_more} ({e} and {g}) {conn} {h})")
             } else {
-                format!("exists Z{outer_more} ({h} and exists I$i{inner_more} ({g} and {e}))")
+                format!("{q} Z{outer_more} ({h} {conn} exists I$i{inner_more} ({g} and {e}))")
             };
             (s, "restrict-exists")
         }
@@ -51,7 +54,10 @@ pub fn gen_redex(r: &mut Rng) -> (String, &'static str) {
             let loc: &[(&str, &str)] = &[("Z", ""), ("I", "$i"), ("X", "")];
             let g = { let use_loc = r.chance(2, 3); filler(r, if use_loc { loc } else { vs }, 1) };
             let h = if r.chance(1, 2) { filler(r, &[("X", ""), ("I", "$i"), ("K", "$i")], 1) } else { filler(r, loc, 1) };
-            (format!("forall Z X (exists I$i{inner_more} ({e} and {g}) -> {h})"), "restrict-forall")
+            // near misses: the rewrite is only valid for ->
+            let conn = ["->", "->", "->", "<->", "<-", "or", "and"][r.upto(7)];
+            let q = if r.chance(1, 6) { "exists" } else { "forall" };
+            (format!("{q} Z X (exists I$i{inner_more} ({e} and {g}) {conn} {h})"), "restrict-forall")
         }
         2 => {
             // extend_quantifier_scope
